@@ -2,7 +2,17 @@
 
 abstract system (Python side): dict(nw, cen = int array (nw, 3) in twelfths, rs = sorted list of R tuples,
 H = {R: complex ndarray (nw, nw)}, hasX, X = {R: ndarray}, spinor)
+
+Conventions of this binding
+  * only the public call a property talks about is run through `under_test`: an exception raised inside the wannierberri
+    package becomes `UnderTestError` (a violation `<site>:raises` at the caller), an exception raised in a harness frame
+    (wrong keyword, renamed attribute) becomes `HarnessMisuse` (the sub-check is skipped and recorded in SKIPPED);
+  * private attributes are read through `private(...)`: when they are gone the sub-check is skipped, not crashed;
+  * systems are compared as functions R -> matrix continued by zero (the set of stored R-vectors is a representation);
+  * every second case lives on a non-orthogonal lattice (LAT_SKEW), so that Cartesian and reduced quantities differ.
 """
+import hashlib
+import json
 import warnings
 import numpy as np
 
@@ -10,11 +20,122 @@ from ..common import quiet, MachineryError
 
 CU = 12
 V3 = np.array([1.0, 2.0, -1.0])      # the second matrix X of the specification is bound to AA(R)[a, b, :] = X(R)[a, b] * V3
-TOL_INT = 1e-9                       # integrality of projections (observed deviations ~1e-16)
+TOL_INT = 1e-9                       # integrality of projections (observed deviations ~1e-14)
+LAT_ID = np.eye(3)
+LAT_SKEW = np.array([[1.0, 0.0, 0.0], [1.0, 2.0, 0.0], [0.0, 0.0, 3.0]])
+SKIPPED = {}                         # name of a private detail / call site -> why the sub-check was skipped
+KNOWN_KEYS = ("Ham", "AA", "BB", "CC", "SS", "OO", "GG", "FF", "SA", "SHA", "SR", "SH", "SHR", "SRA")
 
 
 class NonIntegral(Exception):
     pass
+
+
+class UnderTestError(Exception):
+    """the wannierberri package raised inside a public call the property talks about"""
+
+    def __init__(self, ex, site):
+        super().__init__(f"{type(ex).__name__}: {ex}")
+        self.ex, self.site = ex, site
+
+
+class HarnessMisuse(Exception):
+    """the exception was raised in a harness frame (bad keyword, renamed private attribute): not a finding"""
+
+
+_ENV = (MachineryError, OSError, MemoryError, ImportError, RecursionError, KeyboardInterrupt)
+
+
+def _site_of(ex):
+    from ..main import raised_by_code_under_test
+    return raised_by_code_under_test(ex)
+
+
+def under_test(fn, *a, **k):
+    try:
+        return fn(*a, **k)
+    except (UnderTestError, HarnessMisuse, NonIntegral):
+        raise
+    except _ENV:
+        raise
+    except Exception as ex:
+        site = _site_of(ex)
+        if site is None:
+            raise HarnessMisuse(f"{type(ex).__name__}: {ex}"[:300]) from ex
+        raise UnderTestError(ex, site) from ex
+
+
+def setup(fn, *a, **k):
+    """harness-side preparation: its own misuse of the API (TypeError / AttributeError raised in a harness frame) is a skip"""
+    try:
+        return fn(*a, **k)
+    except (UnderTestError, HarnessMisuse, NonIntegral):
+        raise
+    except (TypeError, AttributeError) as ex:
+        if _site_of(ex) is None:
+            raise HarnessMisuse(f"{type(ex).__name__}: {ex}"[:300]) from ex
+        raise
+
+
+def private(name, fn):
+    """value of a private detail, or None (recorded in SKIPPED) when a refactoring removed it"""
+    try:
+        return fn()
+    except (AttributeError, TypeError, KeyError) as ex:
+        if _site_of(ex) is None:
+            SKIPPED[name] = f"{type(ex).__name__}: {ex}"[:200]
+            return None
+        raise
+
+
+def note_skip(name, why):
+    SKIPPED[name] = str(why)[:200]
+
+
+def guarded(rep, key, detail, fn, *a, **k):
+    """-> (True, value) or (False, None) after reporting `<key>:raises` (package) / recording a skip (harness)"""
+    try:
+        return True, under_test(fn, *a, **k)
+    except UnderTestError as e:
+        rep.violation(f"{key}:raises", dict(detail, error=str(e)[:400], raised_in=e.site))
+        return False, None
+    except HarnessMisuse as e:
+        note_skip(key, e)
+        return False, None
+
+
+def jsable(v):
+    """parsed TLA value / numpy / tuples -> JSON-able with a canonical order of sets"""
+    if isinstance(v, dict):
+        return {str(k): jsable(x) for k, x in v.items()}
+    if isinstance(v, (set, frozenset)):
+        return sorted((jsable(x) for x in v), key=lambda x: json.dumps(x, sort_keys=True))
+    if isinstance(v, (tuple, list)):
+        return [jsable(x) for x in v]
+    if isinstance(v, np.ndarray):
+        return jsable(v.tolist())
+    if isinstance(v, complex):
+        return [v.real, v.imag]
+    if isinstance(v, (np.integer,)):
+        return int(v)
+    if isinstance(v, (np.floating,)):
+        return float(v)
+    return v
+
+
+def stable_key(obj):
+    return json.dumps(jsable(obj), sort_keys=True)
+
+
+def stable_hash(obj):
+    return int(hashlib.md5(stable_key(obj).encode()).hexdigest()[:12], 16)
+
+
+def variant_of(obj, flat=True):
+    """deterministic choice of the lattice / periodicity / naming variant of a case (independent of TLC's dump order)"""
+    h = stable_hash(obj)
+    return dict(lattice=LAT_SKEW if h & 1 else LAT_ID, periodic=(True, True, False) if (flat and (h >> 1) & 1) else (True, True, True),
+                names=bool((h >> 2) & 1), h=h >> 3)
 
 
 # ------------------------------------------------------------------ TLA values -> abstract systems
@@ -60,17 +181,18 @@ def soc_json(s):
 
 
 # ------------------------------------------------------------------ abstract -> real
-def build(a, periodic=(True, True, True)):
+def build(a, periodic=(True, True, True), lattice=None):
     """real System_R through the public constructor from_sparse (every stored R-vector is passed, also with zero matrices)"""
     from wannierberri.system.system_R import System_R
     nw = a["nw"]
+    lattice = LAT_ID if lattice is None else np.array(lattice, dtype=float)
     ham = {R: {(i, j): complex(a["H"][R][i, j]) for i in range(nw) for j in range(nw)} for R in a["rs"]}
     mats = {"Ham": ham}
     if a["hasX"]:
         mats["AA"] = {R: {(i, j): a["X"][R][i, j] * V3 for i in range(nw) for j in range(nw)} for R in a["rs"]}
     with quiet(), warnings.catch_warnings():
         warnings.simplefilter("ignore")
-        s = System_R.from_sparse(np.eye(3), wannier_centers_red=np.array(a["cen"], dtype=float) / CU, matrices=mats)
+        s = System_R.from_sparse(lattice.copy(), wannier_centers_red=np.array(a["cen"], dtype=float) / CU, matrices=mats)
         s.periodic = np.array(periodic)
         s.set_pointgroup([])
     return s
@@ -93,8 +215,8 @@ def _round_gauss(x, what, scale=1.0):
 
 
 def project(s, scale=1.0):
-    """real System_R -> abstract system (exact: rounded, integrality verified). Also returns the three views of the centres
-    that the code keeps: wannier_centers_cart, the cached wannier_centers_red and the shifts of rvec"""
+    """real System_R -> abstract system (exact: rounded, integrality verified). Also returns the views of the centres the
+    code keeps besides wannier_centers_cart: the public cached wannier_centers_red and (private) the shifts of rvec"""
     nw = int(s.num_wann)
     inv = np.linalg.inv(s.real_lattice)
     cen = _round_int(s.wannier_centers_cart @ inv, "wannier_centers_cart", CU).astype(int)
@@ -103,7 +225,7 @@ def project(s, scale=1.0):
         raise MachineryError("duplicate R-vectors in a real system")
     ham = _round_gauss(s.get_R_mat("Ham"), "Ham", scale)
     a = dict(nw=nw, cen=cen, rs=sorted(rs), H={R: ham[i] for i, R in enumerate(rs)}, hasX=s.has_R_mat("AA"), X={},
-             spinor=bool(s.spinor))
+             spinor=bool(s.spinor), spinor_raw=s.spinor)
     if a["hasX"]:
         aa = s.get_R_mat("AA")
         x = _round_gauss(aa[..., 0] / V3[0], "AA", scale)
@@ -112,44 +234,64 @@ def project(s, scale=1.0):
         a["X"] = {R: x[i] for i, R in enumerate(rs)}
     else:
         a["X"] = {R: np.zeros((nw, nw), dtype=complex) for R in rs}
-    views = dict(cen_red=_round_int(s.wannier_centers_red, "wannier_centers_red", CU).astype(int),
-                 shifts_left=_round_int(s.rvec.shifts_left_red, "rvec.shifts_left_red", CU).astype(int),
-                 shifts_right=_round_int(s.rvec.shifts_right_red, "rvec.shifts_right_red", CU).astype(int))
+    views = {}
+    for name, getter in (("cen_red", lambda: s.wannier_centers_red), ("shifts_left", lambda: s.rvec.shifts_left_red),
+                         ("shifts_right", lambda: s.rvec.shifts_right_red)):
+        v = private("view:" + name, getter)
+        if v is not None:
+            views[name] = _round_int(v, name, CU).astype(int)
     return a, views
 
 
-def diff_sys(exp, got, centres=True):
-    """list of differences between two abstract systems (exact)"""
+def _ext(F, rs, R, nw):
+    return F[R] if R in rs else np.zeros((nw, nw), dtype=complex)
+
+
+def diff_sys(exp, got, centres=True, mod_cell=False):
+    """list of differences between two abstract systems (exact), compared as functions of R continued by zero: the set of
+    stored R-vectors is an internal representation. mod_cell: centres compared modulo lattice vectors"""
     d = []
     if exp["nw"] != got["nw"]:
         return [f"nw {exp['nw']} != {got['nw']}"]
-    if centres and not np.array_equal(exp["cen"], got["cen"]):
-        d.append(f"centres expected {exp['cen'].tolist()} got {got['cen'].tolist()}")
-    if list(exp["rs"]) != list(got["rs"]):
-        d.append(f"R-set expected {exp['rs']} got {got['rs']}")
-        return d
-    for R in exp["rs"]:
-        if not np.array_equal(exp["H"][R], got["H"][R]):
-            d.append(f"Ham({R}) expected {exp['H'][R].tolist()} got {got['H'][R].tolist()}")
+    if centres:
+        dc = np.asarray(exp["cen"]) - np.asarray(got["cen"])
+        if (np.any(dc % CU) if mod_cell else np.any(dc)):
+            d.append(f"centres expected {np.asarray(exp['cen']).tolist()} got {np.asarray(got['cen']).tolist()}")
+    nw = exp["nw"]
+    es, gs = set(exp["rs"]), set(got["rs"])
+    for R in sorted(es | gs):
+        e, g = _ext(exp["H"], es, R, nw), _ext(got["H"], gs, R, nw)
+        if not np.array_equal(e, g):
+            d.append(f"Ham({R}) expected {e.tolist()} got {g.tolist()}")
     if exp["hasX"] != got["hasX"]:
         d.append(f"second matrix present: expected {exp['hasX']} got {got['hasX']}")
     elif exp["hasX"]:
-        for R in exp["rs"]:
-            if not np.array_equal(exp["X"][R], got["X"][R]):
-                d.append(f"AA({R}) expected {exp['X'][R].tolist()} got {got['X'][R].tolist()}")
+        for R in sorted(es | gs):
+            e, g = _ext(exp["X"], es, R, nw), _ext(got["X"], gs, R, nw)
+            if not np.array_equal(e, g):
+                d.append(f"AA({R}) expected {e.tolist()} got {g.tolist()}")
     return d
 
 
-def diff_views(cen, views):
+def diff_views(cen, views, only=None):
     d = []
     for k, v in views.items():
+        if only is not None and k not in only:
+            continue
         if v.shape != cen.shape or not np.array_equal(v, cen):
             d.append(f"{k} = {v.tolist()} differs from the centres {cen.tolist()}")
     return d
 
 
+def permute_sys(a, q):
+    """abstract system with new index i = old index q[i]"""
+    q = list(q)
+    ix = np.ix_(q, q)
+    return dict(a, cen=np.asarray(a["cen"])[q], H={R: a["H"][R][ix] for R in a["rs"]}, X={R: a["X"][R][ix] for R in a["rs"]})
+
+
 # ------------------------------------------------------------------ observation on the real code
-def data_k_list(system, klist4):
+def data_k_list(system, klist4, **kw):
     """data_K object of the system's class on an explicit list of k-points (quarters)"""
     import wannierberri as wb
     from wannierberri.data_K import get_data_k_class_from_system
@@ -157,17 +299,30 @@ def data_k_list(system, klist4):
         warnings.simplefilter("ignore")
         grid = wb.Grid(system=system, NKdiv=1, NKFFT=1)
         cls = get_data_k_class_from_system(system)
-        return cls(system, dK=None, grid=grid, k_list=np.array(klist4, dtype=float) / 4.0)
+        return cls(system, dK=None, grid=grid, k_list=np.array(klist4, dtype=float) / 4.0, **kw)
 
 
 def real_hk(system, klist4):
     return np.array(data_k_list(system, klist4).HH_K)
 
 
-def real_dhk(system, klist4):
-    """CU * d/dk_c of H(k) in the Wannier gauge, (nk, nw, nw, 3)"""
+def real_hk_ek(system, klist4):
     d = data_k_list(system, klist4)
-    return CU * d.rvec.R_to_k(d.Ham_R.copy(), der=1, hermitian=True)
+    return np.array(d.HH_K), np.array(d.E_K)
+
+
+def real_ek(system, klist4):
+    return np.array(data_k_list(system, klist4).E_K)
+
+
+def real_dhk(system, klist4):
+    """CU * derivative of H(k) in the Wannier gauge with respect to the *reduced* k components, (nk, nw, nw, 3); the code's
+    Cartesian derivative is contracted with the lattice. Private path (rvec.R_to_k, Ham_R): None when it is gone"""
+    d = data_k_list(system, klist4)
+    dcart = private("real_dhk", lambda: d.rvec.R_to_k(d.Ham_R.copy(), der=1, hermitian=True))
+    if dcart is None:
+        return None
+    return CU * np.asarray(dcart) @ np.linalg.inv(np.asarray(system.real_lattice))
 
 
 def abs_hk(a, k4):
@@ -204,45 +359,117 @@ def cp_ints(eigs, what):
 
 # ------------------------------------------------------------------ operations on real objects
 def op_rotate(s, U):
-    """X'(R) = U^dagger X(R) U for every real-space matrix (what a user does to change the basis)"""
+    """X'(R) = U^dagger X(R) U for every real-space matrix (what a user does to change the basis); public API only"""
     Ud = U.conj().T
-    for key in list(s._XX_R.keys()):
+    for key in KNOWN_KEYS:
+        if not s.has_R_mat(key):
+            continue
         X = s.get_R_mat(key)
         new = np.einsum("ab,rbc...,cd->rad...", Ud, X, U)
         s.set_R_mat(key, new, reset=True)
     return s
 
 
-def make_soc(up, dn):
+def spin_pairs_of(ss0, tol=1e-12):
+    """pairs (up, down) read from SS(R=0)[:, :, c] as written by set_spin_pairs; None when SS is not such a pairing"""
+    n = ss0.shape[0]
+    sx, sy, sz = ss0[:, :, 0], ss0[:, :, 1], ss0[:, :, 2]
+    pairs, used = [], set()
+    for i in range(n):
+        if abs(sz[i, i] - 1) < tol:
+            js = [j for j in range(n) if j != i and abs(sx[i, j] - 1) < tol]
+            if len(js) != 1:
+                return None
+            pairs.append((i, js[0]))
+            used.update((i, js[0]))
+    if len(used) != n or len(pairs) * 2 != n:
+        return None
+    exp = np.zeros_like(ss0)
+    pa = np.array([[[0, 1], [1, 0]], [[0, -1j], [1j, 0]], [[1, 0], [0, -1]]])
+    for i, j in pairs:
+        for c in range(3):
+            exp[i, i, c], exp[i, j, c], exp[j, i, c], exp[j, j, c] = pa[c, 0, 0], pa[c, 0, 1], pa[c, 1, 0], pa[c, 1, 1]
+    if np.max(np.abs(exp - ss0)) > tol:
+        return None
+    return sorted(pairs)
+
+
+def make_soc(up, dn=None):
+    """SystemSOC(up, dn) (nspin = 2) or SystemSOC(up) (nspin = 1). The constructor is the call under test of MakeSOC"""
     from wannierberri.system.system_soc import SystemSOC
     with quiet(), warnings.catch_warnings():
         warnings.simplefilter("ignore")
-        soc = SystemSOC(up, dn)
-        soc._NKFFT_recommended = np.array([3, 3, 3])
+        soc = under_test(SystemSOC, up, dn) if dn is not None else under_test(SystemSOC, up)
+        soc._NKFFT_recommended = np.array([3, 3, 3])           # private: a SystemSOC without SOC terms has no rvec to derive it from
         soc.set_pointgroup()
     return soc
 
 
-def set_soc(soc, a, m, n):
-    """the SOC real-space matrices are put directly (exact small integers), then the public set_soc_axis"""
+def set_soc(soc, a, m=None, n=None, nspin=2, degrees=False, overlap=None, theta=None, phi=None, alpha=None):
+    """the SOC real-space matrices are put directly (exact small integers; private keys, there is no public way without
+    ab-initio files), then the public set_soc_axis (the call under test). Returns what set_soc_axis returns: (Ham_SOC, SS)"""
     from wannierberri.fourier.rvectors import Rvectors
     nw = a["up"]["nw"]
     rsS = a["rsS"]
     with quiet(), warnings.catch_warnings():
         warnings.simplefilter("ignore")
         soc.rvec = Rvectors(lattice=soc.real_lattice, iRvec=np.array(rsS, dtype=int), shifts_left_red=soc.wannier_centers_red)
-        for st, key in (("00", "dV_soc_wann_0_0"), ("11", "dV_soc_wann_1_1"), ("01", "dV_soc_wann_0_1")):
+        keys = (("00", "dV_soc_wann_0_0"), ("11", "dV_soc_wann_1_1"), ("01", "dV_soc_wann_0_1")) if nspin == 2 else (("00", "dV_soc_wann_0_0"),)
+        for st, key in keys:
             soc.set_R_mat(key, np.array([a["D"][st][R] for R in rsS], dtype=complex), reset=True)
-        ov = np.zeros((len(rsS), nw, nw), dtype=complex)
-        ov[rsS.index((0, 0, 0))] = np.eye(nw)
-        soc.set_R_mat("overlap_up_down", ov, reset=True)
+        if nspin == 2:
+            if overlap is None:
+                ov = np.zeros((len(rsS), nw, nw), dtype=complex)
+                ov[rsS.index((0, 0, 0))] = np.eye(nw)
+            else:
+                ov = np.array([overlap[R] for R in rsS], dtype=complex)
+            soc.set_R_mat("overlap_up_down", ov, reset=True)
         soc.has_soc = True
-        soc.set_soc_axis(theta=m * np.pi / 2, phi=n * np.pi / 2, alpha_soc=float(a["al"]))
-    return soc
+        al = float(a["al"]) if alpha is None else float(alpha)
+        if theta is None:
+            theta, phi = (90.0 * m, 90.0 * n) if degrees else (m * np.pi / 2, n * np.pi / 2)
+        elif degrees:
+            theta, phi = np.rad2deg(theta), np.rad2deg(phi)
+        if degrees:
+            ret = under_test(soc.set_soc_axis, theta=theta, phi=phi, alpha_soc=al, units="degrees")
+        else:
+            ret = under_test(soc.set_soc_axis, theta=theta, phi=phi, alpha_soc=al)
+    try:
+        ham_soc, ss = ret
+    except (TypeError, ValueError):
+        ham_soc = private("Ham_SOC", lambda: soc.get_R_mat("Ham_SOC"))
+        ss = private("SS", lambda: soc.get_R_mat("SS"))
+    return (None if ham_soc is None else np.array(ham_soc)), (None if ss is None else np.array(ss))
+
+
+def code_pauli(m=None, n=None, theta=None, phi=None):
+    """SOC.get_pauli_rotated of the code as P[c, s, t]"""
+    from wannierberri.w90files.soc import SOC
+    if theta is None:
+        theta, phi = m * np.pi / 2, n * np.pi / 2
+    P = under_test(SOC.get_pauli_rotated, theta=theta, phi=phi)
+    return np.transpose(np.asarray(P), (2, 0, 1))
+
+
+LEVI = np.zeros((3, 3, 3))
+LEVI[0, 1, 2] = LEVI[1, 2, 0] = LEVI[2, 0, 1] = 1
+LEVI[0, 2, 1] = LEVI[2, 1, 0] = LEVI[1, 0, 2] = -1
+
+
+def pauli_defect(P, axis):
+    """max deviation of P[c, s, t] from: Hermitian, traceless, Pauli algebra, spin along the axis = diag(1, -1)"""
+    dev = float(np.max(np.abs(np.einsum("cst,c->st", P, np.asarray(axis, dtype=float)) - np.diag([1.0, -1.0]))))
+    for a in range(3):
+        dev = max(dev, float(np.max(np.abs(P[a] - P[a].conj().T))), float(abs(np.trace(P[a]))))
+        for b in range(3):
+            rhs = (a == b) * np.eye(2) + 1j * np.einsum("c,cst->st", LEVI[a, b], P)
+            dev = max(dev, float(np.max(np.abs(P[a] @ P[b] - rhs))))
+    return dev
 
 
 def abs_ham_soc(a):
-    """Ham_SOC of the abstract SOC system (transcription of SysAlg!HamSOC, used for records only)"""
+    """Ham_SOC of the abstract SOC system (transcription of SysAlg!HamSOC; used for records and when the code's rotated
+    Pauli matrices are a different valid choice than the specification's)"""
     nw = a["up"]["nw"]
     out = {}
     for R in a["rsS"]:
@@ -263,3 +490,44 @@ def abs_ham_soc(a):
                         M[2 * m + s, 2 * n + t] = a["al"] * np.dot(d, a["P"][:, s, t])
         out[R] = M
     return out
+
+
+def abs_hk_soc(a, k4):
+    """H(k) of the abstract SOC system (transcription of SysAlg!HkSOC)"""
+    nw = a["up"]["nw"]
+    h = np.zeros((2 * nw, 2 * nw), dtype=complex)
+    h[::2, ::2] = abs_hk(a["up"], k4)
+    h[1::2, 1::2] = abs_hk(a["dn"], k4)
+    if a["hassoc"]:
+        hs = abs_ham_soc(a)
+        for R in a["rsS"]:
+            h += hs[R] * (1j) ** (int(np.dot(R, k4)) % 4)
+    return h
+
+
+def nspin1_D(D):
+    """the three blocks of a SystemSOC with one spin channel: all taken from dV_soc_wann_0_0 (SysAlg!Nspin1D)"""
+    return {"00": D["00"], "11": D["00"], "01": D["00"]}
+
+
+def project_float(s):
+    """real System_R -> abstract-like system without rounding (centres in twelfths as floats); for numeric sub-checks"""
+    nw = int(s.num_wann)
+    cen = np.asarray(s.wannier_centers_cart) @ np.linalg.inv(s.real_lattice) * CU
+    rs = [tuple(int(x) for x in R) for R in s.rvec.iRvec]
+    ham = np.asarray(s.get_R_mat("Ham"))
+    return dict(nw=nw, cen=cen, rs=sorted(rs), H={R: ham[i] for i, R in enumerate(rs)}, hasX=False,
+                X={R: np.zeros((nw, nw), dtype=complex) for R in rs}, spinor=bool(s.spinor))
+
+
+def shifts_consistent(s, ks4, tol=1e-8, periodic=(True, True, True)):
+    """max deviation between the Wannier-gauge derivative of H(k) of `s` and of a system freshly built from the matrices and
+    centres of `s` (None when the derivative is not reachable)"""
+    dh = real_dhk(s, ks4)
+    if dh is None:
+        return None
+    fresh = build(project_float(s), periodic=periodic, lattice=s.real_lattice)
+    dh2 = real_dhk(fresh, ks4)
+    if dh2 is None:
+        return None
+    return float(np.max(np.abs(dh - dh2)))
